@@ -275,6 +275,8 @@ def resize_rule(chk, db):
                 astx.loc(f, bad[0]), bad[2], astx.show(bad[1], 30)), {"where": astx.loc(f)})
     return n
 
+META = (META[0] + ' GAPSHIFT (a backward shift that follows an append covers exactly the old tail, as linear forms over begin / entry end / position); SWAPSYM (the arms of a member swap are mirror images under this <-> other); controls in fixtures/extra8_pos.hpp.', META[1])
+
 
 def run(chk, tier):
     db = D.load("checks")
@@ -290,6 +292,10 @@ def run(chk, tier):
     from ..rules import iters as _ITE
     _ITE.erase_count_area(chk, db, ['_vector/', '_inplace_vector/'])      # ERASECNT: erase / erase_if return the number of erased elements
     _ITE.rotate_insert_area(chk, db, ['_vector/', '_inplace_vector/'])      # ROTINS: append-then-rotate inserts rotate from the requested position
+    from ..rules import extra8 as _X8
+    _X8.gap_shift_area(chk, db, ['_vector/', '_inplace_vector/'])      # GAPSHIFT: append-then-shift inserts shift exactly the old tail
+    _X8.swap_symmetry_area(chk, db, ['_vector/', '_inplace_vector/', '_stack/'])      # SWAPSYM: the two arms of a member swap mirror each other
+    _X8.positive_controls(chk, D, ('SWAPSYM', 'GAPSHIFT'))
     from ..rules import initform as _IF
     _IF.check(chk, db, ['_vector/', '_inplace_vector/', '_stack/'])      # INITFORM: forwarded packs direct-non-list-initialise
     cap_rule(chk, db)
